@@ -76,11 +76,13 @@ def check_init(ctx, tu, rule='C20.I', only=None):
                key_detail='indeterminate ' + ','.join(names))
 
 
-def check_policy(ctx, tu):
+def check_policy(ctx, tu, rule='C20.P', only=None):
     for f in tu.fns:
         if not f.skey.startswith('SingleThreading::Atomic::'):
             continue
         name = f.name
+        if only and name not in only:
+            continue
         ws = writes(f)
         rets = f.return_nodes()
         retv = [f.strip_all_casts(f.kids(r)[0]) for r in rets if f.kids(r)]
@@ -88,15 +90,15 @@ def check_policy(ctx, tu):
             op = name[-2:]
             ok = len(retv) == 1 and f.nodes[retv[0]]['cls'] == 'UnaryOperator' and f.nodes[retv[0]].get('op') == op \
                 and not f.nodes[retv[0]].get('postfix') and path(f, f.kids(retv[0])[0]) == ('this', '.value')
-            ctx.ob('C20.P', f, 'prefix %s returns the new value (std::atomic convention)' % op, ok,
+            ctx.ob(rule, f, 'prefix %s returns the new value (std::atomic convention)' % op, ok,
                    detail='the library compares the result of %scounter with thresholds (getNextCounter()==0 wrap test)' % op)
         elif name == 'load':
             ok = len(retv) == 1 and path(f, retv[0]) == ('this', '.value') and not [w for w in ws if w['how'] != 'call:load']
-            ctx.ob('C20.P', f, 'load returns the stored value without changing it', ok)
+            ctx.ob(rule, f, 'load returns the stored value without changing it', ok)
         elif name == 'store':
             asg = [w for w in ws if w['how'] == 'assign' and w['path'] == ('this', '.value')]
             ok = len(asg) == 1 and path(f, asg[0]['rhs'])[0].startswith('v:')
-            ctx.ob('C20.P', f, 'store assigns the given value', ok)
+            ctx.ob(rule, f, 'store assigns the given value', ok)
         elif name == 'exchange':
             asg = [w for w in ws if w['how'] == 'assign' and w['path'] == ('this', '.value')]
             ok = False
@@ -104,14 +106,16 @@ def check_policy(ctx, tu):
                 vd = f.var_decls().get(f.decl(retv[0])['id'])
                 if vd and vd.get('init') and path(f, vd['init']) == ('this', '.value'):
                     ok = f.pos_dominates(f.pos(vd['stmt']), asg[0]['pos']) and f.pos(vd['stmt']) != asg[0]['pos']
-            ctx.ob('C20.P', f, 'exchange returns the previous value and stores the new one', ok)
+            ctx.ob(rule, f, 'exchange returns the previous value and stores the new one', ok)
         elif f.kind == 'ctor' and f.d.get('ctor') not in ('copy', 'move', 'default'):
             inits = [i for i in f.d.get('inits', []) if i.get('member') == 'value' and i.get('n')]
             ok = bool(inits) and path(f, inits[0]['n'])[0].startswith('v:')
-            ctx.ob('C20.P', f, 'converting constructor stores its argument', ok)
+            ctx.ob(rule, f, 'converting constructor stores its argument', ok)
     for f in tu.fns:
+        if only:
+            break
         if f.skey in ('SingleThreading::Mutex::lock', 'SingleThreading::Mutex::unlock'):
-            ctx.ob('C20.P', f, 'SingleThreading::Mutex provides %s()' % f.name, len(f.params) == 0)
+            ctx.ob(rule, f, 'SingleThreading::Mutex provides %s()' % f.name, len(f.params) == 0)
 
 
 def check_matrix(ctx):
